@@ -167,7 +167,8 @@ def generator_rules(ctx, pid, gen_rel, fun_rel, codec):
                 ctx.violation(R2, gen_rel, c, Model.qual(f),
                               'the decoder template uses a length decoded at run time (%s) without an emitted `if (length > maximum) { decoder_abort(...); return; }` before it: '
                               'a received length above the declared maximum indexes past the fixed-size C array' % what, stmt='unguarded run-time length: ' + c.value.strip()[:60])
-    floor = 2 if pid == 'C09' else 3
+    floor = 1      # the templates may be merged or split by a refactoring of the generator: at least one must be recognised
+    ctx.extra['%s_runtime_length_accesses' % pid] = n_acc
     if n_acc < floor and not any(x.rule == R2 for x in ctx.findings):
         raise AnalysisError('%s found only %d run-time-length accesses in %s' % (R2, n_acc, gen_rel))
     # array declarations use checker.maximum
@@ -292,6 +293,7 @@ def generator_rules(ctx, pid, gen_rel, fun_rel, codec):
     # ---- R7 the C type holds the range
     pts = cgen.range_points()
     cells = 0
+    undecided7 = 0
     groups = {}
     for lo in pts:
         for hi in pts:
@@ -301,11 +303,15 @@ def generator_rules(ctx, pid, gen_rel, fun_rel, codec):
             t = cgen.c_type_for(model, lo, hi)
             if t == 'ERROR':
                 continue
+            if t == 'UNDECIDED':
+                undecided7 += 1
+                continue
             if not cgen.type_holds(t, lo, hi):
                 key = ('%s%d_t' % t, 'minimum < 0' if lo < 0 else 'minimum >= 0')
                 groups.setdefault(key, (lo, hi))
     ctx.extra['c_type_cells'] = cells
-    ctx.instance(R7, 'type_length/format_type_name on %d (minimum, maximum) cells' % cells, 'ok' if not groups else 'VIOLATION', node=tl, file=UTIL)
+    ctx.instance(R7, 'type_length/format_type_name on %d (minimum, maximum) cells, %d undecided' % (cells, undecided7),
+                 ('ok' if undecided7 < cells else 'undecided') if not groups else 'VIOLATION', nontrivial=undecided7 < cells, node=tl, file=UTIL)
     for (tname, sign), (lo, hi) in sorted(groups.items()):
         ctx.violation(R7, UTIL, tl, Model.qual(tl),
                       'for INTEGER (%d..%d) the generator declares the C field as %s, which cannot hold the whole range: the value is truncated when stored and the wire width '
